@@ -561,10 +561,11 @@ class Engine(object):
         if z3.is_false(cond):
             return False
         if self.pos < len(self.prefix):
-            take = self.prefix[self.pos]
+            take, forked = self.prefix[self.pos]
         else:
             self._shard_gate()
             known = None
+            forked = False
             if self.model is not None:
                 try:
                     v = self.model.eval(cond, model_completion=True)
@@ -579,7 +580,8 @@ class Engine(object):
                 other, m2 = self._check(z3.Not(cond) if known else cond)
                 take = known
                 if other != 'unsat':
-                    self.pending.append(self.prefix[:self.pos] + [not known])
+                    forked = True
+                    self.pending.append(self.prefix[:self.pos] + [(not known, True)])
             else:
                 rt, mt = self._check(cond)
                 rf, mf = self._check(z3.Not(cond))
@@ -595,8 +597,9 @@ class Engine(object):
                     # prefer a side with a model
                     take = True if rt == 'sat' or rf != 'sat' else False
                     self.model = mt if take else mf
-                    self.pending.append(self.prefix[:self.pos] + [not take])
-            self.prefix.append(take)
+                    forked = True
+                    self.pending.append(self.prefix[:self.pos] + [(not take, True)])
+            self.prefix.append((take, forked))
             self.nforks += 1
         self.pos += 1
         self.pc.append(cond if take else z3.Not(cond))
@@ -609,24 +612,28 @@ class Engine(object):
                 self.model = None
         return take
 
+    def _fork_bits(self):
+        return [t for (t, f) in self.prefix if f]
+
+    def _shard_of(self):
+        h = 1
+        for b in self._fork_bits()[:self.shard_depth]:
+            h = h * 2 + (1 if b else 0)
+        return ((h * 2654435761) >> 5) % self.shard[1]
+
     def _shard_gate(self):
         if self.shard is None or self._shard_checked:
             return
-        if self.pos >= self.shard_depth:
+        if len(self._fork_bits()) >= self.shard_depth:
             self._shard_checked = True
-            i, n = self.shard
-            h = 0
-            for b in self.prefix[:self.shard_depth]:
-                h = h * 2 + (1 if b else 0)
-            if (h * 2654435761 >> 7) % n != i:
+            if self._shard_of() != self.shard[0]:
                 raise PathAbort('shard')
 
     def shard_owns_path(self):
         """called at the end of a path: does this shard own it?"""
         if self.shard is None:
             return True
-        i, n = self.shard
-        h = 0
-        for b in self.prefix[:self.shard_depth]:
-            h = h * 2 + (1 if b else 0)
-        return (h * 2654435761 >> 7) % n == i
+        return self._shard_of() == self.shard[0]
+
+    def decision_string(self):
+        return ''.join(('T' if t else 'F') if f else ('t' if t else 'f') for (t, f) in self.prefix)
